@@ -29,6 +29,7 @@ from .c17 import PositionalLocal
 ID = 'C16'
 MESSAGES = (('rpc', 'pause', 'm'), ('rpc', 'play'), ('rpc', 'kill', 't1'), ('rpc', 'status'),
             ('bc', 'pause', 'bm'), ('bc', 'play'), ('bc', 'kill', 'bt'))
+ASYNC_MESSAGES = (('actl', 'pause', 'am'), ('actl', 'play'), ('actl', 'kill', 'at'), ('actl', 'status'), ('rpc', 'play'))
 FAULTS = {'closed': lambda: ConnectionClosed(0, 'closed'), 'channel': lambda: ChannelInvalidStateError('invalid'),
           'timeout': lambda: kiwipy.TimeoutError('timeout')}
 
@@ -125,7 +126,7 @@ class CommWorld(ctl.World):
             self.direct = False
 
     def _op_thunk(self, op: tuple, origin: str = 'env') -> Callable[[], None]:
-        if op[0] not in ('rpc', 'bc'):
+        if op[0] not in ('rpc', 'bc', 'actl'):
             return super()._op_thunk(op, origin)
 
         def run() -> None:
@@ -156,7 +157,13 @@ class CommWorld(ctl.World):
                     rec['reply'] = None
             return rec
         try:
-            if kind == 'rpc':
+            if kind == 'actl':
+                # the coroutine based controller: the reply is the task running its coroutine
+                controller = process_comms.RemoteProcessController(self.comm)
+                coro = {'pause': lambda: controller.pause_process('p0', text), 'play': lambda: controller.play_process('p0'),
+                        'kill': lambda: controller.kill_process('p0', text), 'status': lambda: controller.get_status('p0')}[intent]()
+                rec['reply'] = self.loop.create_task(coro)
+            elif kind == 'rpc':
                 msg = {'pause': process_comms.MessageBuilder.pause, 'play': process_comms.MessageBuilder.play,
                        'kill': process_comms.MessageBuilder.kill, 'status': process_comms.MessageBuilder.status}[intent](text)
                 rec['reply'] = futures.unwrap_kiwi_future(self.comm.rpc_send('p0', msg))
@@ -187,7 +194,7 @@ def observations(w: CommWorld) -> Dict[str, Any]:
         outcome = ('LIVE', str(state), proc.paused)
     replies = []
     for rec in w.sent:
-        if rec['op'][0] == 'rpc':
+        if rec['op'][0] in ('rpc', 'actl'):
             final = final_of(rec['reply']) if rec['raised'] is None else ('raised', type(rec['raised']).__name__)
             if final[0] == 'value' and isinstance(final[1], dict):
                 final = ('value', {k: v for k, v in final[1].items() if k != 'ctime'})  # wall clock of two separate runs
@@ -215,7 +222,16 @@ class Oracle:
         feats = {'wrapped': w.wrapped}
         # (a) every delivered control message became exactly one call of the matching method with the matching arguments
         want_calls = []
+        has_async = any(rec['op'][0] == 'actl' for rec in w.sent)
         for rec in w.sent:
+            if rec['op'][0] == 'actl':
+                # the coroutine sends its message when its task gets to run; if the process is gone by then the send is
+                # refused (unroutable) and there is nothing to handle
+                reply = rec['reply']
+                if reply is not None and reply.done() and not reply.cancelled() and \
+                        isinstance(reply.exception(), kiwipy.UnroutableError):
+                    rec['raised'] = reply.exception()
+                    rec['undelivered'] = True
             if rec['raised'] is not None or rec['op'][1] == 'status':
                 continue
             if rec['op'][0] == 'bc' and not rec['live']:
@@ -223,10 +239,13 @@ class Oracle:
             op = rec['op']
             want_calls.append((op[1], (op[2],) if op[1] != 'play' else ()))
         got_calls = [(h[0], h[1]) for h in w.handler_log if not h[3]]
+        if has_async:
+            # tasks of the coroutine controller and plain sends interleave: compare as multisets
+            want_calls, got_calls = sorted(want_calls, key=repr), sorted(got_calls, key=repr)
         if got_calls != want_calls:
             w.violate('a:handler-calls-differ', dict(feats, n_want=len(want_calls), n_got=len(got_calls)),
                       {'want': want_calls, 'got': got_calls})
-        else:
+        elif not has_async:
             # the reply ends with what the handler's return value ends with
             remote_handlers = [h for h in w.handler_log if not h[3]]
             k = 0
@@ -235,20 +254,29 @@ class Oracle:
                     continue
                 handler = remote_handlers[k]
                 k += 1
-                if rec['op'][0] != 'rpc':
+                if rec['op'][0] not in ('rpc', 'actl'):
                     continue
                 got, want = final_of(rec['reply']), final_of(handler[2])
                 if got != want:
                     w.violate('a:reply-differs-from-handler-result', dict(feats, intent=rec['op'][1], want=str(want), got=str(got)),
                               {'reply': got, 'handler_returned': want})
+        if has_async:
+            # match replies and handler results per intent, in order
+            for intent in ('pause', 'play', 'kill'):
+                results = [final_of(h[2]) for h in w.handler_log if not h[3] and h[0] == intent]
+                replies = [final_of(r['reply']) for r in w.sent if r['op'][1] == intent and r['raised'] is None
+                           and r['op'][0] in ('rpc', 'actl')]
+                if sorted(map(repr, results)) != sorted(map(repr, replies)):
+                    w.violate('a:reply-differs-from-handler-result', dict(feats, intent=intent, controller='async'),
+                              {'replies': replies, 'handler_returned': results})
         for rec in w.sent:
-            if rec['op'][1] == 'status' and rec['raised'] is None and rec['live']:
+            if rec['op'][1] == 'status' and rec['raised'] is None and rec['live'] and not has_async:
                 got = final_of(rec['reply'])
                 # the reply is exactly what the process reported about itself when the request was handled
                 handled = w.status_log[rec['n_status']] if rec['n_status'] < len(w.status_log) else None
                 if got != ('value', handled):
                     w.violate('a:status-reply', feats, {'got': got, 'handler_reported': handled})
-            if rec['live'] and rec['raised'] is not None:
+            if rec['live'] and rec['raised'] is not None and not rec.get('undelivered'):
                 w.violate('a:send-to-live-process-raised', dict(feats, exc=type(rec['raised']).__name__), repr(rec['raised']))
         # (c) every transition announced exactly once, in order, by the process id
         want_ann = [('p0', f'state_changed.{frm.value if frm is not None else None}.{to.value}') for frm, to in w.entered]
@@ -276,7 +304,8 @@ class Oracle:
 
 
 def cfg_for(unit: Any) -> ctl.Config:
-    return ctl.Config(alphabet=MESSAGES, closing=('gates', 'play', 'resume'), resume_default=('dflt',))
+    alphabet = ASYNC_MESSAGES if len(unit) > 5 and unit[5] == 'async' else MESSAGES
+    return ctl.Config(alphabet=alphabet, closing=('gates', 'play', 'resume'), resume_default=('dflt',))
 
 
 def cls_for(unit: Any) -> type:
@@ -438,7 +467,14 @@ def run_check(tier: str, seed: int, workers: Any) -> Dict[str, Any]:
              'the equivalent direct calls instead of sending messages; state sequence, executed steps, outputs, outcome, '
              'status, replies and announcements must be equal',
         assumptions=[], bounds={'K': 3 if tier == 'quick' else 4}, describe=lambda u: {'program': programs.describe(u[0]), 'wrapped': u[2]})
-    out = runner.merge([part1, part2])
+    tiny = list(programs.linear_programs(2, ('S', 'Y1'), ('cont', 'wait'), ('ret',)))
+    part1b = runner.run_explorer(
+        factory, (), [(p, None, wrapped, 'remote', None, 'async') for p in tiny for wrapped in (False, True)], {'K': 2, 'J': 0},
+        seed, workers,
+        rule='(1b) the same with the coroutine based RemoteProcessController (pause_process / play_process / kill_process / '
+             'get_status awaited in loop tasks) mixed with a plain rpc play', assumptions=[], bounds={'K': 2},
+        describe=lambda u: {'program': programs.describe(u[0]), 'wrapped': u[2], 'controller': 'async'})
+    out = runner.merge([part1, part1b, part2])
     part3 = check_broadcast_faults(small)
     out['coverage']['evaluations'] += part3['n']
     out['coverage']['traces_validated_against_impl'] += part3['n']
